@@ -1183,6 +1183,10 @@ type Hist7 struct {
 	Reuse bool         `json:"reuse"` // reuse the previous step's host object when the step is "same"
 	RawA  bool         `json:"raw_a,omitempty"` // compile against a raw *types.Env (conv.TypeEnvOf(A))
 	Share bool         `json:"share,omitempty"` // RawA: structurally equal composite types of the compile-time environment are one shared object
+	// Recomp (RawA, no Layer): before step Recomp the compile-time *types.Env object itself gets one
+	// more name (zz9: num) and a second Callable is compiled against that same object; from
+	// then on the steps invoke the second Callable and conformity is judged against A + zz9
+	Recomp int          `json:"recomp,omitempty"`
 	Layer int          `json:"layer,omitempty"` // RawA: the first Layer names (sorted) live in a BASE level the compile-time environment is Derive()d from
 	Sim   simrt.Config `json:"sim"`
 }
@@ -1289,6 +1293,36 @@ func genHist7(r *rng) *Hist7 {
 		// there is nothing to check; if it is ever accepted, its outer names must be checked too)
 		h.Layer = 1 + r.intn(3)
 	}
+	if h.RawA && h.Layer == 0 && !withFuns && len(h.Steps) >= 2 && r.chance(0.35) {
+		k := 1 + r.intn(len(h.Steps)-1)
+		if r.chance(0.5) {
+			for j := k; j < len(h.Steps); j++ {
+				if h.Steps[j].Again {
+					k = j
+					break
+				}
+			}
+		}
+		h.Recomp = k
+		with := false
+		for i := k; i < len(h.Steps); i++ {
+			st := h.Steps[i]
+			if st.Again || st.RawPut != nil {
+				// the previous step's object: it has the name iff that object had it
+				if i == k {
+					with = false
+				}
+			} else {
+				with = r.chance(0.5)
+			}
+			if with {
+				var ne *Env7
+				cloneVT(st.Env, &ne)
+				ne.Binds = append(ne.Binds, &Field{Name: "zz9", V: &VT{K: "num", Num: 7}})
+				st.Env = ne
+			}
+		}
+	}
 	h.Sim = simrt.Config{Seed: r.u64() | 1, ClockSeam: true, ClockBase: 1700000000, MaxSteps: 20_000_000,
 		MapMode: []int{simrt.MapShuffle, simrt.MapReverse, simrt.MapRotate, simrt.MapSorted}[r.intn(4)], MapParam: 1 + r.intn(4)}
 	if r.chance(0.3) {
@@ -1360,9 +1394,13 @@ func runHist7(h *Hist7, x *evalCtx) hist7Result {
 	}
 	outs := make([]stepOut, len(h.Steps))
 	var compileErr error
+	recompAt := -1 // steps from this index on were run with the second Callable (-1: none)
+	stopAt := len(h.Steps)
 	body := func() {
 		eng := buildEngine(h.Spec, x.recFn)
 		var c yae.Callable
+		var teObj *types.Env
+		curA, curSrc := h.A, h.Src
 		func() {
 			defer func() {
 				if r := recover(); r != nil {
@@ -1382,6 +1420,7 @@ func runHist7(h *Hist7, x *evalCtx) hist7Result {
 						te.Put(f.Name, f.ty())
 					}
 					compileEnv = te
+					teObj = te
 					if h.Layer > 0 {
 						var names []string
 						te.ForEach(func(k string, _ *types.Type) { names = append(names, k) })
@@ -1407,6 +1446,35 @@ func runHist7(h *Hist7, x *evalCtx) hist7Result {
 		}
 		var prevHost interface{}
 		for i, st := range h.Steps {
+			if h.Recomp > 0 && i == h.Recomp && teObj != nil && h.Layer == 0 {
+				// the host extends the compile-time environment object it already has and
+				// compiles a second expression against it
+				teObj.Put("zz9", types.Num)
+				src2 := "if(zz9 > 0, (" + h.Src + "), (" + h.Src + "))"
+				var c2 yae.Callable
+				var cerr error
+				func() {
+					defer func() {
+						if r := recover(); r != nil {
+							if simrt.IsAbort(r) {
+								panic(r)
+							}
+							cerr = fmt.Errorf("panic: %v", r)
+						}
+					}()
+					c2, cerr = eng.Compile(src2, teObj)
+				}()
+				if cerr != nil || c2 == nil {
+					stopAt = i // nothing to check from here on
+					return
+				}
+				c, curSrc = c2, src2
+				var a2 *Env7
+				cloneVT(h.A, &a2)
+				a2.Binds = append(a2.Binds, &Field{Name: "zz9", V: &VT{K: "num", Num: 7}})
+				curA = a2
+				recompAt = i
+			}
 			var hostB interface{}
 			var err error
 			switch {
@@ -1437,7 +1505,7 @@ func runHist7(h *Hist7, x *evalCtx) hist7Result {
 				}
 			}
 			prevHost = hostB
-			outs[i].accept, outs[i].why = conforms(h.A, st.Env)
+			outs[i].accept, outs[i].why = conforms(curA, st.Env)
 			if st.RawBot != "" {
 				outs[i].accept, outs[i].why = false, "binding "+st.RawBot+" holds an empty-literal value (element type bottom), not the compiled element type"
 			}
@@ -1454,7 +1522,7 @@ func runHist7(h *Hist7, x *evalCtx) hist7Result {
 				x.observe(false, func(o *obs) {
 					pe := buildEngine(h.Spec, x.recFn)
 					var err error
-					pc, err = pe.Compile(h.Src, pristineCompileHost(st.Env, hostB1))
+					pc, err = pe.Compile(curSrc, pristineCompileHost(st.Env, hostB1))
 					if err != nil {
 						pc = nil
 					}
@@ -1482,8 +1550,14 @@ func runHist7(h *Hist7, x *evalCtx) hist7Result {
 		return res
 	}
 	for i, st := range h.Steps {
+		if i >= stopAt {
+			break
+		}
 		so := outs[i]
 		mut := dominant(st.Muts)
+		if recompAt >= 0 && i >= recompAt {
+			mut = "recomp-" + mut
+		}
 		if !so.accept {
 			res.Rejects++
 			switch {
@@ -1619,6 +1693,9 @@ func (c07) Batch(seed uint64, wid, batch, count int, deadline time.Time, emit fu
 		}
 		rec.Runs++
 		c["invocations"] += int64(len(h.Steps))
+		if h.Recomp > 0 {
+			c["histories_recompiling_on_extended_type_env"]++
+		}
 		c["model_accept"] += int64(res.Accepts)
 		c["model_reject"] += int64(res.Rejects)
 		c["fault_hash_perm_fired"] += int64(res.Sim.MapPerms)
